@@ -267,7 +267,9 @@ def check(ctx):
     for fi, c in comp:
         gf = cfg_of(fi)
         cn = [n for n in gf.stmt_nodes() if c in list(n.walk())][0]
-        flag = [n for n in gf.stmt_nodes() if isinstance(n.ast, ast.Assign) and ast.unparse(n.ast.targets[0]) == "self._is_connected" and repo.try_fold(n.ast.value) is True]
+        from ..facts import connected_flag_stores as _cfs
+        _marks, _fa = _cfs(repo, "GeckoAsyncSpa", fi, True)   # stores after which is_connected reads True (the flag by role)
+        flag = [n for n in gf.stmt_nodes() if n.ast in _marks]
         sctx.ob("I1", "SPA_COMPLETE::after-connected-flag", any(gf.dom(f, cn) for f in flag), f"{fi.qual}: CONNECTION_SPA_COMPLETE raised before the spa is marked connected", loc(fi, c))
         ba = [n for n, c2 in calls_named(gf, "build_accessors")]
         sctx.ob("I1", "SPA_COMPLETE::after-accessors", any(gf.dom(b, cn) for b in ba), f"{fi.qual}: CONNECTION_SPA_COMPLETE raised before the accessors are built", loc(fi, c))
@@ -330,7 +332,7 @@ def check(ctx):
     n_checked = 0
     for m in man.methods.values():
         gm = cfg_of(m)
-        drops = [n for n in gm.stmt_nodes() if isinstance(n.ast, ast.Assign) and ast.unparse(n.ast.targets[0]) == "self._facade"
+        drops = [n for n in gm.stmt_nodes() if isinstance(n.ast, ast.Assign) and any(ast.unparse(t_) == "self._facade" for t_ in n.ast.targets)
                  and isinstance(n.ast.value, ast.Constant) and n.ast.value.value is None]
         if m.name == "__init__":
             continue
@@ -414,7 +416,15 @@ def check(ctx):
     ch = [i for i, s in enumerate(body) if s == "self._on_change()"]
     ctx.ob("I7", "StatusSensor.on_event::notifies-after-update", bool(ch) and bool(i_text) and ch[0] > i_text[0], "on_event notifies observers before storing the new text", onev.loc)
     sp = repo.method(MAN, "spa_state")
-    ctx.ob("I7", "spa_state::reads-state", "return self._spa_state" in ast.unparse(sp.node), "spa_state property does not return the state attribute", sp.loc)
+    # by interpretation on the manager model: whatever state the manager is in, the public property reads that state
+    from ..managermodel import Manager as _Manager, members as _members
+    _m7 = _Manager(repo)
+    _bad7 = []
+    for _s, _v in _members(repo, "GeckoSpaState"):
+        _m7.put(_s, facade=False, spa=False)
+        if _m7.state() != _s:
+            _bad7.append((_s, _m7.state()))
+    ctx.ob("I7", "spa_state::reads-state", not _bad7, f"the spa_state property does not read the manager's state: (state put, state read) {_bad7[:3]}", sp.loc)
     # to_string total + distinct
     ts = repo.method("GeckoSpaState", "to_string")
     interp = Interp(repo)
